@@ -194,13 +194,13 @@ def check_many(assert_lists, timeout_each=5, solver='z3'):
             parts.append('(echo "sat")\n')
             continue
         decls, defs, name, ufs, vnames = sr.emit(asserts)
-        lines = ['(set-option :timeout %d)' % int(timeout_each * 1000)] + decls + defs
+        lines = decls + defs
         lines += ['(assert %s)' % name[a.id] for a in asserts]
         lines += ['(check-sat)', '(reset)']
         parts.append('\n'.join(lines) + '\n')
     text = ''.join(parts)
     t = time.time()
-    cmd = [Z3 if solver == 'z3' else Z3NEW, '-in']
+    cmd = [Z3 if solver == 'z3' else Z3NEW, '-in', '-t:%d' % int(timeout_each * 1000)]      # -t: soft timeout per check-sat
     try:
         p = subprocess.run(cmd, input=text, capture_output=True, text=True, timeout=timeout_each * len(assert_lists) + 30)
         out = p.stdout
